@@ -8,6 +8,8 @@ from .. import paths
 from ..core import FUNC, call_attr, calls_in, const, dotted, is_const, kwarg, norm, text, walk_local
 
 EXPLANATION = [
+    'C12.indication-slot: indications are built in one place, sent under the per-bearer semaphore, and the pending-confirmation slot is cleared in `finally` (same rule as C10.indication-slot): one lost confirmation cannot stop later indications.',
+    'C12.uuid-wire: in gatt/gatt_client/gatt_server a UUID is never serialised with bytes(uuid) for a PDU; every site uses to_pdu_bytes(), which expands 32-bit UUIDs.',
     'C12.subscriber-lifetime: every per-bearer table the notify/indicate/CCCD paths consult is dropped in Server.on_disconnection.',
     'C12.client-group-ends: in the client, every characteristic declaration of a response closes the previous characteristic at handle-1 and is recorded on every path of the per-declaration loop (filtering by UUID happens after the ranges are final).',
     'C12.progress: every request loop of gatt_client.Client (services, service by UUID, included services, characteristics, '
@@ -436,7 +438,41 @@ def client_group_ends(ctx):
     R.check('characteristics[-1].end_group_handle = service.end_group_handle' in s, rule, f'{CLI}.discover_characteristics | last group', 'the last characteristic ends with the service', 'the last characteristic is not closed at the end of the service', p.loc(m))
 
 
+
+def indication_slot(ctx):
+    from . import c10
+    c10.indication_slot(ctx, rule='C12.indication-slot')
+
+
+def uuid_wire(ctx):
+    """UUIDs that go into ATT PDUs are serialised with to_pdu_bytes() (32-bit UUIDs expanded to 128 bits)."""
+    R, p = ctx.r, ctx.p
+    rule = 'C12.uuid-wire'
+    n = 0
+    for mod in ('bumble.gatt_client', 'bumble.gatt_server', 'bumble.gatt'):
+        m = p.module(mod)
+        if m is None:
+            R.bad(rule, mod, 'anchor missing')
+            continue
+        for c in ast.walk(m.tree):
+            if not (isinstance(c, ast.Call) and dotted(c.func) == 'bytes' and len(c.args) == 1):
+                continue
+            d = dotted(c.args[0]) or ''
+            if not (d == 'uuid' or d.endswith('.uuid') or d.endswith('_uuid') or d.endswith('.type')):
+                continue
+            n += 1
+            R.bad(rule, f'{p.qual_of(c)} | bytes({d})', f'a UUID is put on the wire with bytes({d}) instead of {d}.to_pdu_bytes(): a 32-bit UUID goes out as 4 bytes, which no peer (and not bumble\'s own server, which stores the 128-bit form) will match', p.loc(c))
+        for c in ast.walk(m.tree):
+            if isinstance(c, ast.Call) and call_attr(c) == 'to_pdu_bytes':
+                n += 1
+    R.check(n >= 5, rule, 'bumble.gatt* | UUID serialisation sites', f'{n} sites, all through to_pdu_bytes()', f'only {n} UUID serialisation sites found')
+    tb = p.find('bumble.core.UUID.to_pdu_bytes')
+    R.check(tb is not None and 'force_128=len(self.uuid_bytes) == 4' in norm(tb).replace('(len(self.uuid_bytes) == 4)', 'len(self.uuid_bytes) == 4'), rule, 'bumble.core.UUID.to_pdu_bytes', '32-bit UUIDs are expanded to 128 bits', 'to_pdu_bytes no longer expands 32-bit UUIDs', p.loc(tb) if tb else '')
+
+
 RULES = [
+    ('C12.indication-slot', indication_slot),
+    ('C12.uuid-wire', uuid_wire),
     ('C12.subscriber-lifetime', subscriber_lifetime),
     ('C12.client-group-ends', client_group_ends),
     ('C12.progress', progress),
